@@ -366,3 +366,15 @@ Example C08_nonvacuous_int :
   /\ to_str_fixed (nval_of_bytes false b) 2 true false = Ok [53; 46; 48; 48]
   /\ buf_to_decimal false b 3 = Ok (500, -2).
 Proof. vm_compute. repeat split; reflexivity. Qed.
+
+(* the values are arguments, not state: nothing is threaded from one field to the next, so a value (variable)
+   that occurs again in the list is formatted to the same text again (seeded change C08d: iabs() on the
+   variable itself; the harness additionally reads every variable back after the statement) *)
+Theorem C08_same_value_again : forall tr h0 s v t,
+  format_item (fst s) v = Ok t ->
+  spec_run tr h0 [s] [] [v; v] = (h0 ++ t ++ snd s ++ h0 ++ t ++ snd s, Ok (negb tr)).
+Proof.
+  intros tr h0 s v t H. cbn [spec_run hd tl]. rewrite !H. cbn [spec_run hd tl]. rewrite ?H.
+  unfold prep. cbn [fst snd]. rewrite !app_nil_r. rewrite <- !app_assoc. reflexivity.
+Qed.
+Print Assumptions C08_same_value_again.
